@@ -74,6 +74,7 @@ func TestC18(t *testing.T) {
 		e.runGovBlocks(out)
 		e.runGovHooks(out)
 		e.runXC(out)
+		e.runAttRouter(out)
 	}
 }
 
